@@ -468,7 +468,16 @@ def r13_7(run):
                message='lineReceived drops a line on path %s: blank lines vanish from multi-line values' % p.describe())
 
 
+def r13_8(run):
+    """a reply with several keys is put together by the line machine before parse_keywords sees it: every line class goes to the
+    handler the control-spec names for it (a "250+key=" line inside a reply continues it, it does not start a new reply text) -
+    the FSM routing rule of C01 (R01.6), shared"""
+    from . import c01
+    borrow(run, c01.r01_6, 'R13.8')
+
+
 RULES = [
+    ('R13.8', 'line-machine routing per line class (R01.6 borrowed): a data-block line inside a multi-key reply continues the reply text', r13_8),
     ('R13.7', 'reply buffer emptied on every path of _broadcast_response; every received line reaches the machine', r13_7),
     ('R13.6', 'exact removal of fixed prefixes/suffixes (no character-set strip with the tested literal; final OK cut by len(suffix))', r13_6),
     ('R13.1', 'dot-unstuffing exists on the data-line path and precedes accumulation; terminator matched first', r13_1),
